@@ -107,7 +107,7 @@ Definition rekey (t : gmap path pnode) (s d : path) : gmap path pnode :=
     path, and only then looks the old entry up *)
 Definition parent_lookup (st : physfs) (p : path) : option (res unit) :=
   match p with
-  | [] => Some (fail EIo)                                (* the root is busy *)
+  | [] => None                                           (* the parent of the root directory exists *)
   | _ => match lookup_path st (removelast p) with
          | Found pn => match pn_kind pn with PDir => None | PFile _ => Some (fail EIo) end
          | other => Some (lres_err other)
@@ -121,6 +121,9 @@ Definition phys_rename (st : physfs) (s d : path) : physfs * res unit :=
   match parent_lookup st d with
   | Some e => (st, e)
   | None =>
+  match s, d with
+  | [], _ | _, [] => (st, fail EIo)                      (* the root is busy / would move into itself *)
+  | _, _ =>
   match p_tree st !! s with
   | None => (st, fail ENotFound)
   | Some sn =>
@@ -144,7 +147,7 @@ Definition phys_rename (st : physfs) (s d : path) : physfs * res unit :=
                       end
             end
         end
-  end end end.
+  end end end end.
 
 Definition phys_step (c : fscall) (s : physfs) : physfs * res (pval c) :=
   match c as c return physfs * res (pval c) with
